@@ -62,6 +62,37 @@ ASSUMPTIONS = [
     "find-or-insert; a GetResult that uses operator[] is refused",
 ]
 
+EXPLANATION += (
+    " R8.6 (rules/c08_memo_key.py) decides one order effect inside a live "
+    "solver: the value stored in solved_states_ is a function of its key. The "
+    "functions of the search recursion (the strongly connected component of "
+    "solver.cc's call graph containing the search driver and a writer of the "
+    "memo: FindSolution, RecallOrFindSolution, and a split-off "
+    "FindAndMemoizeSolution) are analysed by an information-flow analysis: "
+    "sources are every parameter that is not the State key (current_depth, "
+    "seen_states), every Solver field that some Solver method writes (the "
+    "cache counters, query_metrics_), the memo wherever it is not looked up / "
+    "stored with the key, and file-local helpers that read such a field; taint "
+    "flows through initialisers, assignments, range-for and structured-binding "
+    "variables, arguments of calls outside the recursion, and implicitly into "
+    "every variable assigned under a tainted condition; results of calls into "
+    "the recursion are clean by induction. Sinks: a returned value, a condition "
+    "whose branches contain return/break/continue or a memo write, the value "
+    "stored into the memo, the State handed to a recursive call. A depth "
+    "cut-off (`if (current_depth > N) return true`), a visit budget on a member "
+    "counter or a bound on seen_states.size() is a violation: the state would "
+    "be memoised with an answer that depends on where the asking query started. "
+    "Triaged (still not decided): the cycle cut-off, recognised as a membership "
+    "test of the successor state in the StateSet parameter (count / contains / "
+    "find != end, possibly hoisted into a once-bound bool) whose branch only "
+    "`continue`s.")
+ASSUMPTIONS += [
+    "R8.6: functions outside solver.cc / solver.h called from the recursion "
+    "(typegraph getters, remove_finished_goals, PathFinder) return values "
+    "determined by their arguments and the graph; the path cache is covered by "
+    "R8.5",
+]
+
 READ_SET = {
     "CFGNode::incoming_", "CFGNode::condition_", "CFGNode::bindings_",
     "CFGNode::id_", "Binding::origins_", "Binding::node_to_origin_",
